@@ -411,6 +411,12 @@ def handleKernel (line : String) : Option String :=
       match b.toNat?, n.toNat?, m.toNat?, nats M, nats S with
       | some B, some n, some m, some M, some S => some (showNats (Matrix.apply B n m M S))
       | _, _, _, _, _ => some "ERR parse"
+    | ["mat.apply64", md, n, m], [M, S] =>
+      -- int64 rendering of `apply_batch_torch` (products wrap, are reduced, the sum wraps, is reduced)
+      match md.toNat?, n.toNat?, m.toNat?, ints M, ints S with
+      | some md, some n, some m, some M, some S =>
+        some (showInts (Cv.InstanceMat.matActInt64 { matrix := M, modulo := md } n m S))
+      | _, _, _, _, _ => some "ERR parse"
     | ["mat.isinverse", b, n], [A, C] =>
       match b.toNat?, n.toNat?, nats A, nats C with
       | some B, some n, some A, some C => some (if Matrix.isInverse B n A C then "1" else "0")
